@@ -11,7 +11,7 @@ CONSTANTS
   ShrinkTs <- MC_ShrinkTs
   DMax0 = 12
   DMin0 = 2
-  MaxFail = 1
+  MaxFail = 2
   MaxNaN = 1
   MaxCrit = 1
   SaveEverys <- MC_SaveEverys
